@@ -101,10 +101,13 @@ package dst
 //@ modifies nothing
 
 //@ func walkExprList
+//@ requires elems_not_nil: forall i int :: 0 <= i && i < len(list) ==> list[i] != nil
 //@ modifies nothing
 
 //@ func walkStmtList
+//@ requires elems_not_nil: forall i int :: 0 <= i && i < len(list) ==> list[i] != nil
 //@ modifies nothing
 
 //@ func walkDeclList
+//@ requires elems_not_nil: forall i int :: 0 <= i && i < len(list) ==> list[i] != nil
 //@ modifies nothing
